@@ -178,7 +178,8 @@ ConcD(d, i, a, req, vk) ==
          LET baseval(w, e) == CASE a.fo.b = "min" -> e - 1
                                 [] a.fo.b = "max" -> Pow(w) - e
                                 [] OTHER -> Mid(w) + (e - 1)
-             val(j, e) == IF a.fo.i = i /\ a.fo.j = j
+             \* the focused class goes into the first group, the others keep distinct base values
+             val(j, e) == IF a.fo.i = i /\ a.fo.j = j /\ e = 1
                           THEN (IF req THEN UVal(d.ws[j], a.fo.c) ELSE RespVal(d.ns[j], d.ws[j], a.fo.c))
                           ELSE IF a.dup THEN Mid(d.ws[j])
                           ELSE baseval(d.ws[j], e)
